@@ -509,8 +509,23 @@ func (w *world) run(c Case, res *vf.Result, hits *[]interface{}) ([]stepRes, []d
 			for _, p := range prevObs.Canon {
 				old[p[0]] = p[1]
 			}
-			replaced, stored, heads := 0, 0, 0
+			replaced, stored, heads, skipped := 0, 0, 0, false
 			for _, wl := range sr.Log {
+				canonInBatch, replacedInBatch := 0, 0
+				for _, e := range wl {
+					var a, b uint64
+					if n, _ := fmt.Sscanf(e, "WCanon %d %d", &a, &b); n == 2 {
+						canonInBatch++
+						if o, ok := old[a]; ok && o != b {
+							replacedInBatch++
+						}
+					}
+				}
+				// reorg(head, block) with an empty old chain: the head is an ancestor two or
+				// more blocks below, the blocks in between are staged by the new-chain walk only
+				if canonInBatch >= 3 && replacedInBatch == 0 {
+					skipped = true
+				}
 				for _, e := range wl {
 					var a, b uint64
 					if n, _ := fmt.Sscanf(e, "WCanon %d %d", &a, &b); n == 2 {
@@ -527,6 +542,9 @@ func (w *world) run(c Case, res *vf.Result, hits *[]interface{}) ([]stepRes, []d
 				}
 			}
 			numOf := func(id uint64) uint64 { return w.byID[id].NumberU64() }
+			if skipped {
+				res.Count("batch: head jumps over stored blocks (reorg with empty old chain)")
+			}
 			switch {
 			case sr.Err == eNone && len(sr.Log) == 0:
 				res.Count("batch: nothing written (known / future / empty)")
@@ -938,9 +956,91 @@ func depthOf2(tree []BlockSpec, i int) int {
 	return depthOf(tree, i)
 }
 
+// a fork with a skipped block in the middle: an empty block labelled "future" is
+// stored by the side-chain path (which does not look at the time), skipped by
+// insertChain when the fork is adopted, and its child - processed on the skipped
+// block's state root, which is its parent's - is written while the head is still
+// two or more blocks below: reorg(head, block) with an EMPTY old chain, the only
+// way the blocks in between become canonical is reorg's walk of the new chain.
+func skipCase(r *vf.Rng, res *vf.Result) Case {
+	var c Case
+	add := func(parent int, empty bool) int {
+		i := len(c.Tree)
+		s := BlockSpec{Parent: parent, Salt: i + 1}
+		if !empty && r.Chance(60) {
+			for k := 0; k <= r.Intn(2); k++ {
+				s.Txs = append(s.Txs, 1+r.Intn(3))
+			}
+		}
+		c.Tree = append(c.Tree, s)
+		return i
+	}
+	L := r.Intn(4) // trunk length, may be 0
+	p := -1
+	var trunk []int
+	for i := 0; i < L; i++ {
+		p = add(p, false)
+		trunk = append(trunk, p)
+	}
+	d := -1 // fork point
+	if L > 0 {
+		d = r.Intn(L+1) - 1
+	}
+	p = -1
+	if d >= 0 {
+		p = trunk[d]
+	}
+	m := L - d + r.Intn(3) // fork length: longer than the rest of the trunk
+	if m < 3 {
+		m = 3
+	}
+	if m > 6 {
+		m = 6
+	}
+	nskip := 1 + r.Intn(2)
+	first := 1 + r.Intn(m-2) // index in the fork of the first skipped block (never the fork's first or last)
+	var fork []int
+	for i := 0; i < m; i++ {
+		skip := i >= first && i < first+nskip && i < m-1
+		p = add(p, skip)
+		if skip {
+			c.Tree[p].HV = hvFuture
+		}
+		fork = append(fork, p)
+	}
+	if len(trunk) > 0 {
+		c.Batches = append(c.Batches, trunk)
+	} else {
+		// something canonical at height 1 so that the fork goes through the side-chain path
+		x := add(-1, false)
+		c.Batches = append(c.Batches, []int{x})
+	}
+	if r.Chance(40) {
+		c.Batches = append(c.Batches, fork[:1+r.Intn(first)])
+	}
+	c.Batches = append(c.Batches, fork)
+	if r.Chance(50) {
+		c.Batches = append(c.Batches, fork[r.Intn(len(fork)):])
+	}
+	if r.Chance(40) && len(trunk) > 0 {
+		c.Batches = append(c.Batches, trunk)
+	}
+	if r.Chance(30) {
+		c.Batches = append(c.Batches, fork)
+	}
+	res.Count("tree with forks")
+	res.Count("tree with invalid or future blocks")
+	res.Count("tree with shared state roots")
+	res.Count("skipped-block-in-fork case")
+	return c
+}
+
 func randCase(r *vf.Rng, res *vf.Result) Case {
 	if r.Chance(35) {
 		return forkCase(r, res)
+	}
+	if r.Chance(15) {
+		return skipCase(r, res)
 	}
 	var c Case
 	nb := 1 + r.Intn(4)
